@@ -463,3 +463,10 @@ def run(ctx):
         flow.check_nullable_uses(sub, f, flow.nullable_functions(cdb), seeds_next=True)
         fired = bool(sub.violations('R-NULL'))
         ctx.control('%s (R-NULL %s)' % (name, 'fires' if expect else 'silent'), fired == expect)
+
+
+MANIFEST = dict(
+   text='Decides structural necessary conditions of the container models on all paths: (1) check-then-use null contradictions in every property-list function (a pointer the function itself null-tests, re-assigned from a list tail and dereferenced untested); (2) the four open-addressing tables (Map<T>, Set<T>, TagMap, StyleMap; every member instantiated explicitly) have control skeletons equal to a frozen reference after abstracting the table-specific empty-slot predicate (probe wrap at items+capacity, load-factor test before get_slot, count++ only on an empty slot, del = empty + count-- + cluster re-insertion until the first empty slot, resize re-inserts every occupied item then clears, next bounded by items+capacity), payload obligations (old slot emptied, every item field written), count==0 guard before every look-up; (3) Array<T> bookkeeping; (4) property-list copies append at the tail and deep-copy. Does not decide equivalence with an abstract map/multimap over operation histories, and nothing about sort (value-dependent).',
+   note='Trusted: clang 14 front end, gx, sa rules; the frozen reference skeletons in sa/props/C20.py were confirmed by reading the pinned tree (a consistent refactor of all tables is reported as differing from the reference, exit 1 naming the method, to be re-confirmed by a human); hash() not analysed.',
+   technique='clone-family comparison with predicate abstraction over typed ASTs + nullness dataflow (check-then-use contradiction) over the clang CFG',
+   design='§4 C20')
